@@ -5,7 +5,7 @@ set -u
 WT=$1; ID=$2; PROP=$3
 export GOFLAGS=-mod=mod GOPROXY=off GOSUMDB=off GOTOOLCHAIN=local
 cd $WT || exit 2
-DEMO=$(ls tests/demo_mutant*_test.go coreV2/*/demo_mutant*_test.go coreV2/*/*/demo_mutant*_test.go 2>/dev/null | head -1)
+DEMO=$(ls tests/demo_mutant*_test.go */demo_mutant*_test.go coreV2/*/demo_mutant*_test.go coreV2/*/*/demo_mutant*_test.go coreV2/*/*/*/demo_mutant*_test.go 2>/dev/null | head -1)
 [ -z "$DEMO" ] && { echo "no demo test found"; exit 2; }
 PKG=./$(dirname $DEMO)/
 RUN=$(grep -o "func Test[A-Za-z0-9_]*" $DEMO | head -1 | sed 's/func //' | sed 's/_.*//')
